@@ -26,6 +26,7 @@ EXPLANATION = (
     'per protobuf store; reported sites are those that may raise something other than MIDIConversionError. CTOR: the PrettyMIDI '
     'constructor is inside a catch-all handler that raises the allowed class. PAIR: total_time vs. note emission. COPY: field-for-field '
     'copies without arithmetic. PMFACTS: assumed pretty_midi attributes exist in the installed source.')
+EXPLANATION += (' ' + 'The escape analysis recognises comprehensions over typed lists and the total builtins (max/min with default, len, abs, any/all); PAIR/total-time accepts the if-form and the max() form of the running maximum in the collecting loop.')
 TRUSTED = ['MIDI field widths: numerator/controller/value/pitch/velocity/program one data byte, pitch bend 14 bit, resolution 16 bit, key_number 0..23; denominator = 2**byte is unbounded',
            'pretty_midi attribute names (verified against the installed source each run)']
 NOT_DECIDED = ['what pretty_midi / mido raise or return for arbitrary bytes (caught wholesale)', 'non-negativity of times delivered by pretty_midi']
